@@ -1346,9 +1346,28 @@ class StructExhaust(StructFamily):
                "values": [{"a": [[1], [2, 3]]}], "class": "nontail"}
         yield {"schema": S({"a": ex(ex(U8))}), "values": [{"a": [[1], [2, 3]]}], "class": "nontail"}
         yield {"schema": S({"a": ex(U8), "z": {"type": "string", "binaryFormat": "1s"}}), "values": [{"a": [1], "z": "q"}], "class": "nontail"}
+        # exhaust arrays *inside* nested objects / array-item objects, at every combination of
+        # (last | not last) in their own object and (last | not last) of that object in its parent,
+        # also under an ["object","null"] top level: only last-in-last is legal
+        for objnull in (False, True):
+            for inner_last in (True, False):
+                for outer_last in (True, False):
+                    for depth in (1, 2):
+                        inner = {"k": dict(U8, index=0), "z": dict(ex(I32), index=1 if inner_last else -1)}
+                        node = {"type": "object", "properties": inner}
+                        val = {"k": 1, "z": [7, 8]}
+                        for _ in range(depth - 1):
+                            node = {"type": "object", "properties": {"p": dict(U8, index=0), "q": dict(node, index=1)}}
+                            val = {"p": 2, "q": val}
+                        sch = S({"a": dict(U8, index=0), "o": dict(node, index=1 if outer_last else -1)})
+                        if objnull:
+                            sch["type"] = ["object", "null"]
+                        yield {"schema": sch, "values": [{"a": 3, "o": val}], "class": "nested"}
+        yield {"schema": S({"w": {"type": "array", "length": 2, "items": {"type": "object", "properties": {"k": U8, "z": ex(U8)}}}}),
+               "values": [{"w": [{"k": 1, "z": [1]}, {"k": 2, "z": []}]}], "class": "nested"}
         n = 150 if tier == "quick" else 1500
         for i in range(n):
-            s = gen_struct_schema(rng, depth=2, plain=True, objnull=False)
+            s = gen_struct_schema(rng, depth=2, plain=True, objnull=rng.random() < 0.15)
             if not s["properties"]:
                 continue
             items = gen_node(rng, 1, plain=True)
@@ -1356,6 +1375,14 @@ class StructExhaust(StructFamily):
                 items = rng.choice([{"type": "null"}, {"type": "string", "binaryFormat": "0s"}, {"type": "null", "binaryFormat": "0x"}])
             mode = rng.random()
             arr = ex(items)
+            if rng.random() < 0.4:
+                # bury the array in a nested object (sometimes two deep), itself last or not
+                for _ in range(rng.choice([1, 1, 2])):
+                    inner = {"k%d" % j: gen_leaf(rng, plain=True) for j in range(rng.choice([0, 1, 2]))}
+                    if rng.random() < 0.6:
+                        arr["index"] = 1000
+                    inner["e"] = arr
+                    arr = {"type": "object", "properties": inner}
             if mode < 0.6:
                 # make it the last field in encoding order
                 top = max([p.get("index", 0) for p in s["properties"].values()] + [0])
@@ -1577,6 +1604,31 @@ def add_rows(kind, ms, values):
         except Exception as e:
             res.append({"exc": exc_name(e), "rows_after": len(t) - k})
     return tc, res
+
+
+def add_rows_all(per_kind):
+    """One valid table collection in which every table with a metadata column has its OWN schema
+    and rows: per_kind = {kind: (MetadataSchema, [values])}; nodes need 3 values, the others 2."""
+    import tskit
+    tc = tskit.TableCollection(sequence_length=1.0)
+    for kind, (ms, _) in per_kind.items():
+        getattr(tc, kind).metadata_schema = ms
+    v = {k: [untag(x) for x in vals] for k, (_, vals) in per_kind.items()}
+    for m in v["populations"]:
+        tc.populations.add_row(metadata=m)
+    for m in v["individuals"]:
+        tc.individuals.add_row(flags=0, metadata=m)
+    for i, m in enumerate(v["nodes"]):
+        tc.nodes.add_row(flags=0, time=float(i), metadata=m)
+    for i, m in enumerate(v["edges"]):
+        tc.edges.add_row(left=0.0, right=1.0, parent=i + 1, child=i, metadata=m)
+    for i, m in enumerate(v["sites"]):
+        tc.sites.add_row(position=(i + 1) / 8, ancestral_state="A", metadata=m)
+    for i, m in enumerate(v["mutations"]):
+        tc.mutations.add_row(site=i, node=0, derived_state="T", metadata=m)
+    for i, m in enumerate(v["migrations"]):
+        tc.migrations.add_row(left=0.0, right=1.0, node=0, source=0, dest=1, time=float(i) + 0.5, metadata=m)
+    return tc
 
 
 def raw_row(t, i):
@@ -2079,8 +2131,20 @@ class NumpyView(Family):
             if len(ref_encode(s, gen_value(rng, s))) == 0:
                 continue
             i += 1
-            yield {"schema": s, "values": [tag(asciify(gen_value(rng, s))) for _ in range(rng.choice([1, 2, 4]))],
-                   "kind": KINDS[i % len(KINDS)]}
+            case = {"schema": s, "values": [tag(asciify(gen_value(rng, s))) for _ in range(rng.choice([1, 2, 4]))],
+                    "kind": KINDS[i % len(KINDS)]}
+            if i % 3 == 0:
+                # every table gets its OWN struct schema; every ts.<table>_metadata accessor is read
+                alls = {}
+                for k in KINDS:
+                    while True:
+                        pk = {nm: gen_fixed_node(rng, 1) for nm in rng.sample(["a", "b", "c", "id", "x1", k[:3]], rng.choice([1, 2, 3]))}
+                        sk = {"codec": "struct", "type": "object", "properties": pk}
+                        if not zero_width_array_items(sk) and len(ref_encode(sk, gen_value(rng, sk))) > 0:
+                            break
+                    alls[k] = {"schema": sk, "values": [tag(asciify(gen_value(rng, sk))) for _ in range(3 if k == "nodes" else 2)]}
+                case["all_tables"] = alls
+            yield case
         U = {"type": "integer", "binaryFormat": "H"}
         # documented exclusions: must raise, not return a wrong view
         yield {"schema": {"codec": "struct", "type": "object", "properties": {"a": {"type": "string", "binaryFormat": "3p"}}},
@@ -2117,6 +2181,22 @@ class NumpyView(Family):
         obs["fields"] = [np_to_tagged(arr[i]) for i in range(len(arr))]
         obs["names"] = list(arr.dtype.names or [])
         obs["flat"] = np_flat(arr.dtype)
+        if "all_tables" in case:
+            import tskit
+            per = {k: (tskit.MetadataSchema(d["schema"]), d["values"]) for k, d in case["all_tables"].items()}
+            tca = add_rows_all(per)
+            tca.build_index()
+            tsa = tca.tree_sequence()
+            allobs = {}
+            for k in KINDS:
+                try:
+                    a = getattr(tsa, k + "_metadata")
+                    allobs[k] = {"names": list(a.dtype.names or []), "itemsize": int(a.dtype.itemsize),
+                                 "records": [list(a[i].tobytes()) for i in range(len(a))],
+                                 "fields": [np_to_tagged(a[i]) for i in range(len(a))]}
+                except Exception as e:
+                    allobs[k] = {"exc": exc_name(e)}
+            obs["all_tables"] = allobs
         try:
             direct = ms.numpy_dtype()         # the schema object itself, not the table's string form
             obs["direct_same"] = bool(direct == arr.dtype)
@@ -2165,6 +2245,19 @@ class NumpyView(Family):
                 out.append(("numpy-field-order", "fields %r, encoding order %r" % (obs["names"], list(want))))
             elif not deep_eq(obs["fields"][i], tag(want)):
                 out.append(("numpy-view-values", "row %d viewed as %r, decodes as %r" % (i, obs["fields"][i], tag(want))))
+        for k, d in case.get("all_tables", {}).items():
+            o = obs.get("all_tables", {}).get(k)
+            if o is None or "exc" in o:
+                out.append(("numpy-all-tables-view-failed", "ts.%s_metadata with per-table schemas: %r" % (k, o)))
+                continue
+            vs = [untag(tv) for tv in d["values"]]
+            raws = [list(ref_encode(d["schema"], v)) for v in vs]
+            wants = [ref_np_view(d["schema"], v) for v in vs]
+            if o["records"] != raws or (raws and o["itemsize"] != len(raws[0])) or (wants and o["names"] != list(wants[0])) \
+                    or not all(deep_eq(a, tag(b)) for a, b in zip(o["fields"], wants)):
+                out.append(("numpy-all-tables-wrong-schema", "ts.%s_metadata does not show the %s table's own rows/schema: "
+                            "fields %r itemsize %r records %r, expected fields %r records %r"
+                            % (k, k, o["names"], o["itemsize"], o["records"], list(wants[0]) if wants else None, raws)))
         return dedup(out)
 
     prelude = "From TskVerif Require Import Base.Common C12.Model.\nOpen Scope Z_scope."
